@@ -285,6 +285,10 @@ def run(ctx):
         break
       linv[k] = name
   ctx.add(long_segment_names=len(long_names))
+  sn, sbad = startup_data_dir()
+  for key, what, rep in sbad:
+    ctx.violation(key, what, rep)
+  ctx.add(startup_data_dir_spellings=sn)
   rjobs = [({'kind': k, 'hashed': h, 'names': names}, (ctx.pick(2, 3), 0)) for k in ('whisper', 'ceres') for h in (True, False)
            for names in (('servers.web01.cpu', 'servers.web02.cpu'), ('a.b;k=v', 'a.b;k=w'))]
   rexec = 0
@@ -382,10 +386,42 @@ def path_race_job(arg):
   return thrx.explore(make_path_race, p, bounds, fanout=10 ** 9)
 
 
+def startup_data_dir():
+  """The data directory the database plugin is confined to must be the one the daemon's start-up settles on: LOCAL_DATA_DIR
+  spelled with '~', relative segments or doubled separators goes through the real postOptions(), and the directory the
+  database object saw when it was built is compared with the normalised setting."""
+  from .. import daemonconf
+  bad = []
+  n = 0
+  home = os.path.expanduser('~')
+  for spelling in ('~/graphite/whisper', '/srv//graphite/./whisper/', '/srv/graphite/tmp/../whisper', '/srv/graphite/whisper'):
+    n += 1
+    want = os.path.normpath(os.path.expanduser(spelling))
+    try:
+      r = daemonconf.effective('carbon-cache', {'LOCAL_DATA_DIR': spelling}, keys=['LOCAL_DATA_DIR'])
+    except Exception as e:   # noqa
+      bad.append(('startup:exception', 'carbon-cache start-up with LOCAL_DATA_DIR = %s failed: %s' % (spelling, str(e)[-300:]), {'startup': spelling}))
+      continue
+    got, seen = r.get('LOCAL_DATA_DIR'), r.get(daemonconf.DB_DIR_KEY)
+    if got != want:
+      bad.append(('startup:data-dir', 'LOCAL_DATA_DIR = %s is settled as %r, expected %r (home %r)' % (spelling, got, want, home), {'startup': spelling}))
+    elif seen != got:
+      bad.append(('escape:startup', 'LOCAL_DATA_DIR = %s: the daemon settles on %r, but the database object was built with %r - every '
+                  'file it creates lies outside the configured data directory' % (spelling, got, seen), {'startup': spelling}))
+  return n, bad
+
+
 def replay(path):
   body = json.load(open(path))
   rep = body['replay']
   env.boot(standins=True)
+  if 'startup' in rep:
+    n, bad = startup_data_dir()
+    for key, what, _ in bad:
+      print('oracle: [%s] %s' % (key, what))
+    if not bad:
+      print('oracle: holds')
+    return 1 if bad else 0
   if 'race' in rep:
     from .. import thrx
     rep['race']['names'] = tuple(rep['race']['names'])
